@@ -83,10 +83,11 @@ func lbToGo(bToRet func(Block) string, lb LazyBlock) string {
 	return wrapFunc(FTypeToGo, rtype, returnBody)
 }
 
-func umpToCaseHeader(uname string, ump UnionMatchPattern, tmpVarName string) string {
+func umpToCaseHeader(uname string, targStr string, ump UnionMatchPattern, tmpVarName string) string {
 	b := buf.New()
 	buf.Write(b, "case ")
 	frt.PipeUnit(unionCSName(uname, ump.CaseId), (func(_r0 string) { buf.Write(b, _r0) }))
+	buf.Write(b, targStr)
 	buf.Write(b, ":\n")
 	frt.IfOnly((frt.OpNotEqual(ump.VarName, "_") && frt.OpNotEqual(ump.VarName, "")), (func() {
 		buf.Write(b, ump.VarName)
@@ -98,10 +99,10 @@ func umpToCaseHeader(uname string, ump UnionMatchPattern, tmpVarName string) str
 	return buf.String(b)
 }
 
-func umrToCase(btogRet func(Block) string, uname string, tmpVarName string, umr UnionMatchRule) string {
+func umrToCase(btogRet func(Block) string, uname string, targStr string, tmpVarName string, umr UnionMatchRule) string {
 	b := buf.New()
 	mp := umr.UnionPattern
-	frt.PipeUnit(umpToCaseHeader(uname, mp, tmpVarName), (func(_r0 string) { buf.Write(b, _r0) }))
+	frt.PipeUnit(umpToCaseHeader(uname, targStr, mp, tmpVarName), (func(_r0 string) { buf.Write(b, _r0) }))
 	frt.PipeUnit(btogRet(umr.Body), (func(_r0 string) { buf.Write(b, _r0) }))
 	buf.Write(b, "\n")
 	return buf.String(b)
@@ -138,6 +139,11 @@ func umrToGoReturn(toGo func(Expr) string, btogRet func(Block) string, target Ex
 	ttype := ExprToType(target)
 	uttype := CastNow[FType_FUnion](ttype).Value
 	uname := utName(uttype)
+	targStr := frt.IfElse(slice.IsEmpty(uttype.Targs), (func() string {
+		return ""
+	}), (func() string {
+		return frt.Pipe(frt.Pipe(frt.Pipe(uttype.Targs, (func(_r0 []FType) []string { return slice.Map(FTypeToGo, _r0) })), (func(_r0 []string) string { return strings.Concat(", ", _r0) })), (func(_r0 string) string { return strings.EncloseWith("[", "]", _r0) }))
+	}))
 	hasCaseVar := umrHasCaseVar(rules)
 	tmpVarName := frt.IfElse(hasCaseVar, (func() string {
 		return uniqueTmpVarName()
@@ -146,7 +152,7 @@ func umrToGoReturn(toGo func(Expr) string, btogRet func(Block) string, target Ex
 	}))
 	b := buf.New()
 	umrstocases := (func(_r0 []UnionMatchRule) []string {
-		return slice.Map((func(_r0 UnionMatchRule) string { return umrToCase(btogRet, uname, tmpVarName, _r0) }), _r0)
+		return slice.Map((func(_r0 UnionMatchRule) string { return umrToCase(btogRet, uname, targStr, tmpVarName, _r0) }), _r0)
 	})
 	writeUmrs := func(umrs []UnionMatchRule) {
 		frt.PipeUnit(frt.Pipe(umrstocases(umrs), (func(_r0 []string) string { return strings.Concat("", _r0) })), (func(_r0 string) { buf.Write(b, _r0) }))
